@@ -362,6 +362,179 @@ pub proof fn lemma_head(r: Seq<Out>, t: Seq<Out>, d: Seq<Out>)
 //@ obligation lemma_assoc props=C08
 //@ obligation lemma_head props=C08
 
+// ---- "each exactly once when links are not followed": a consequence of the denotation for a lister that lists children
+pub open spec fn under(q: Comps, x: Comps) -> bool { q.len() <= x.len() && x.take(q.len() as int) == q }
+pub open spec fn opath(x: Out) -> Comps { x->Ok_0.spath() }
+// the items are entries at pairwise different paths directly below p
+pub open spec fn sib(items: Seq<Out>, p: Comps) -> bool {
+    &&& forall|k: int| 0 <= k < items.len() ==> (#[trigger] items[k]) is Ok && opath(items[k]).len() == p.len() + 1 && opath(items[k]).take(p.len() as int) == p
+    &&& forall|k: int, l: int| 0 <= k < l < items.len() ==> opath(#[trigger] items[k]) != opath(#[trigger] items[l])
+}
+pub open spec fn tree_lister(o: Entries) -> bool {
+    forall|p: Comps| (#[trigger] o.iter_from.list(p, false)) is Ok ==> sib(arr(o, o.iter_from.list(p, false)->Ok_0), p)
+}
+pub open spec fn distinct_ok(w: Seq<Out>) -> bool {
+    forall|i: int, j: int| 0 <= i < j < w.len() && (#[trigger] w[i]) is Ok && (#[trigger] w[j]) is Ok ==> opath(w[i]) != opath(w[j])
+}
+pub proof fn lemma_under_trans(a: Comps, b: Comps, c: Comps)
+    requires under(a, b), under(b, c)
+    ensures under(a, c)
+{
+    assert(c.take(a.len() as int) =~= c.take(b.len() as int).take(a.len() as int));
+}
+pub proof fn theorem_walk_once(o: Entries, f: Option<FilterFn>, e: VfsEntry, st: Seq<Comps>, depth: int)
+    requires !o.follow, tree_lister(o)
+    ensures
+        forall|i: int| 0 <= i < walk(o, f, e, st, depth).len() && (#[trigger] walk(o, f, e, st, depth)[i]) is Ok ==> under(e.spath(), opath(walk(o, f, e, st, depth)[i])),
+        distinct_ok(walk(o, f, e, st, depth)),
+    decreases o.max_depth - depth, 0int
+{
+    let w = walk(o, f, e, st, depth);
+    let p = e.spath();
+    assert(p.take(p.len() as int) =~= p);
+    if descends(o, e) && e.slink() && st.contains(p) {
+    } else if descends(o, e) && 0 <= depth < o.max_depth {
+        if pre_err(o, e) is Some {
+        } else {
+            match o.iter_from.list(p, o.follow) {
+                Err(x) => {},
+                Ok(items) => {
+                    let its = arr(o, items);
+                    let inner = walk_list(o, f, its, st.push(p), depth + 1);
+                    theorem_walk_list_once(o, f, its, p, st.push(p), depth + 1);
+                    let m = me(o, f, e, depth);
+                    // everything in `inner` lies strictly below p
+                    assert forall|i: int| 0 <= i < inner.len() && (#[trigger] inner[i]) is Ok implies under(p, opath(inner[i])) && opath(inner[i]) != p by {
+                        let k = choose|k: int| 0 <= k < its.len() && under(opath(its[k]), opath(inner[i]));
+                        assert(under(p, opath(its[k])));
+                        lemma_under_trans(p, opath(its[k]), opath(inner[i]));
+                    }
+                    if o.contents_first {
+                        assert(w == inner + m);
+                        assert forall|i: int| 0 <= i < w.len() && (#[trigger] w[i]) is Ok implies under(p, opath(w[i])) by {
+                            if i < inner.len() { assert(w[i] == inner[i]); } else { assert(w[i] == m[i - inner.len()]); }
+                        }
+                        assert forall|i: int, j: int| 0 <= i < j < w.len() && (#[trigger] w[i]) is Ok && (#[trigger] w[j]) is Ok implies opath(w[i]) != opath(w[j]) by {
+                            assert(w[i] == inner[i]);
+                            if j < inner.len() { assert(w[j] == inner[j]); } else { assert(w[j] == m[j - inner.len()]); }
+                        }
+                    } else {
+                        assert(w == m + inner);
+                        assert forall|i: int| 0 <= i < w.len() && (#[trigger] w[i]) is Ok implies under(p, opath(w[i])) by {
+                            if i < m.len() { assert(w[i] == m[i]); } else { assert(w[i] == inner[i - m.len()]); }
+                        }
+                        assert forall|i: int, j: int| 0 <= i < j < w.len() && (#[trigger] w[i]) is Ok && (#[trigger] w[j]) is Ok implies opath(w[i]) != opath(w[j]) by {
+                            assert(w[j] == inner[j - m.len()]);
+                            if i < m.len() { assert(w[i] == m[i]); } else { assert(w[i] == inner[i - m.len()]); }
+                        }
+                    }
+                },
+            }
+        }
+    } else {
+    }
+}
+pub proof fn theorem_walk_list_once(o: Entries, f: Option<FilterFn>, items: Seq<Out>, p: Comps, st: Seq<Comps>, depth: int)
+    requires !o.follow, tree_lister(o), sib(items, p)
+    ensures
+        forall|i: int| 0 <= i < walk_list(o, f, items, st, depth).len() && (#[trigger] walk_list(o, f, items, st, depth)[i]) is Ok
+            ==> exists|k: int| 0 <= k < items.len() && under(opath(items[k]), opath(walk_list(o, f, items, st, depth)[i])),
+        distinct_ok(walk_list(o, f, items, st, depth)),
+    decreases o.max_depth - depth, 1 + items.len()
+{
+    let wl = walk_list(o, f, items, st, depth);
+    if items.len() == 0 || depth > o.max_depth || depth < 0 {
+    } else {
+        let e0 = items[0]->Ok_0;
+        let head = walk(o, f, e0, st, depth);
+        let rest_items = items.skip(1);
+        let rest = walk_list(o, f, rest_items, st, depth);
+        assert(wl == head + rest);
+        theorem_walk_once(o, f, e0, st, depth);
+        assert(sib(rest_items, p)) by {
+            assert forall|k: int| 0 <= k < rest_items.len() implies (#[trigger] rest_items[k]) is Ok && opath(rest_items[k]).len() == p.len() + 1 && opath(rest_items[k]).take(p.len() as int) == p by { assert(rest_items[k] == items[k + 1]); }
+            assert forall|k: int, l: int| 0 <= k < l < rest_items.len() implies opath(#[trigger] rest_items[k]) != opath(#[trigger] rest_items[l]) by { assert(rest_items[k] == items[k + 1]); assert(rest_items[l] == items[l + 1]); }
+        }
+        theorem_walk_list_once(o, f, rest_items, p, st, depth);
+        assert forall|i: int| 0 <= i < wl.len() && (#[trigger] wl[i]) is Ok implies exists|k: int| 0 <= k < items.len() && under(opath(items[k]), opath(wl[i])) by {
+            if i < head.len() { assert(wl[i] == head[i]); assert(under(opath(items[0]), opath(wl[i]))); }
+            else {
+                assert(wl[i] == rest[i - head.len()]);
+                let k = choose|k: int| 0 <= k < rest_items.len() && under(opath(rest_items[k]), opath(rest[i - head.len()]));
+                assert(rest_items[k] == items[k + 1]);
+                assert(under(opath(items[k + 1]), opath(wl[i])));
+            }
+        }
+        assert forall|i: int, j: int| 0 <= i < j < wl.len() && (#[trigger] wl[i]) is Ok && (#[trigger] wl[j]) is Ok implies opath(wl[i]) != opath(wl[j]) by {
+            if j < head.len() { assert(wl[i] == head[i] && wl[j] == head[j]); }
+            else if i >= head.len() { assert(wl[i] == rest[i - head.len()] && wl[j] == rest[j - head.len()]); }
+            else {
+                // one below the first sibling, the other below a later sibling: they differ in the component right after p
+                assert(wl[i] == head[i] && wl[j] == rest[j - head.len()]);
+                let k = choose|k: int| 0 <= k < rest_items.len() && under(opath(rest_items[k]), opath(rest[j - head.len()]));
+                assert(rest_items[k] == items[k + 1]);
+                let a = opath(items[0]); let b = opath(items[k + 1]);
+                let x = opath(wl[i]); let y = opath(wl[j]);
+                if x == y {
+                    assert(x.take(a.len() as int) == a && x.take(b.len() as int) == b);
+                    assert(a.len() == b.len());
+                    assert(a == b);
+                }
+            }
+        }
+    }
+}
+
+// ---- "none that a filter rejects"
+pub open spec fn accepted(f: Option<FilterFn>, w: Seq<Out>) -> bool { forall|i: int| 0 <= i < w.len() && (#[trigger] w[i]) is Ok ==> (f is None || f->Some_0.accepts(w[i]->Ok_0)) }
+pub proof fn theorem_walk_filter(o: Entries, f: Option<FilterFn>, e: VfsEntry, st: Seq<Comps>, depth: int)
+    ensures accepted(f, walk(o, f, e, st, depth))
+    decreases o.max_depth - depth, 0int
+{
+    let w = walk(o, f, e, st, depth);
+    let p = e.spath();
+    if descends(o, e) && e.slink() && st.contains(p) {
+    } else if descends(o, e) && 0 <= depth < o.max_depth {
+        if pre_err(o, e) is Some {
+        } else {
+            match o.iter_from.list(p, o.follow) {
+                Err(x) => {},
+                Ok(items) => {
+                    let inner = walk_list(o, f, arr(o, items), st.push(p), depth + 1);
+                    theorem_walk_list_filter(o, f, arr(o, items), st.push(p), depth + 1);
+                    let m = me(o, f, e, depth);
+                    assert forall|i: int| 0 <= i < w.len() && (#[trigger] w[i]) is Ok implies (f is None || f->Some_0.accepts(w[i]->Ok_0)) by {
+                        if o.contents_first { if i < inner.len() { assert(w[i] == inner[i]); } else { assert(w[i] == m[i - inner.len()]); } }
+                        else { if i < m.len() { assert(w[i] == m[i]); } else { assert(w[i] == inner[i - m.len()]); } }
+                    }
+                },
+            }
+        }
+    } else {
+    }
+}
+pub proof fn theorem_walk_list_filter(o: Entries, f: Option<FilterFn>, items: Seq<Out>, st: Seq<Comps>, depth: int)
+    ensures accepted(f, walk_list(o, f, items, st, depth))
+    decreases o.max_depth - depth, 1 + items.len()
+{
+    let wl = walk_list(o, f, items, st, depth);
+    if items.len() == 0 || depth > o.max_depth || depth < 0 {
+    } else {
+        let head = match items[0] { Ok(e) => walk(o, f, e, st, depth), Err(x) => seq![Err::<VfsEntry, RvError>(x)] };
+        let rest = walk_list(o, f, items.skip(1), st, depth);
+        if items[0] is Ok { theorem_walk_filter(o, f, items[0]->Ok_0, st, depth); }
+        theorem_walk_list_filter(o, f, items.skip(1), st, depth);
+        assert forall|i: int| 0 <= i < wl.len() && (#[trigger] wl[i]) is Ok implies (f is None || f->Some_0.accepts(wl[i]->Ok_0)) by {
+            if i < head.len() { assert(wl[i] == head[i]); } else { assert(wl[i] == rest[i - head.len()]); }
+        }
+    }
+}
+//@ obligation lemma_under_trans props=C08
+//@ obligation theorem_walk_once props=C08
+//@ obligation theorem_walk_list_once props=C08
+//@ obligation theorem_walk_filter props=C08
+//@ obligation theorem_walk_list_filter props=C08
+
 impl EntriesIter {
 //@ item process file=src/sys/fs/entries.rs block="impl EntriesIter" fn=process props=C08,C12,C11,C09,C01
 //@ sig fn process(&mut self, entry: VfsEntry) -> Option<RvResult<VfsEntry>>
